@@ -422,6 +422,95 @@ func (m *mon) c10(hdr []int, evs []ev, bad string) {
 	}
 }
 
+// c05sw judges one composed-system walk: exactly once, in order, in both directions.
+func (m *mon) c05sw(script, trace string) int {
+	if strings.HasPrefix(trace, "PANIC") || trace == "HANG" || trace == "CRASH" || trace == "MISSING" {
+		m.fail("panic-or-leak", trace)
+		return 0
+	}
+	sect := map[string][]string{}
+	for _, part := range strings.Split(trace, " ; ") {
+		f := strings.SplitN(part, " ", 2)
+		if len(f) == 2 && f[1] != "" {
+			sect[f[0]] = strings.Split(f[1], ",")
+		} else {
+			sect[f[0]] = nil
+		}
+	}
+	bus, got, gw := sect["bus"], sect["got"], sect["gwacked"]
+	pos := func(l []string, x string) []int {
+		var out []int
+		for i, y := range l {
+			if y == x {
+				out = append(out, i)
+			}
+		}
+		return out
+	}
+	type snd struct{ pid, seq, res string }
+	var sends []snd
+	for _, s := range sect["sends"] {
+		f := strings.Split(s, ":")
+		if len(f) == 3 {
+			sends = append(sends, snd{f[0], f[1], f[2]})
+		}
+	}
+	last := -1
+	for i, s := range sends {
+		if s.res != "ok" {
+			continue
+		}
+		p := pos(bus, s.pid)
+		switch {
+		case len(p) == 0:
+			kind := "success-not-on-bus/other"
+			for _, e := range sends[:i] {
+				if e.seq == s.seq && e.res == "timeout" && len(pos(bus, e.pid)) > 0 {
+					kind = "success-not-on-bus/number-reused-after-timeout"
+				}
+			}
+			m.fail(kind, fmt.Sprintf("Send of telegram %s (sequence number %s) reported success but the gateway never put it on the bus; bus = %v, sends = %v", s.pid, s.seq, bus, sect["sends"]))
+		case len(p) > 1:
+			m.fail("telegram-on-bus-twice", fmt.Sprintf("telegram %s is on the bus %d times: %v", s.pid, len(p), bus))
+		default:
+			if p[0] < last {
+				m.fail("bus-order", fmt.Sprintf("telegram %s completed after an earlier Send but is on the bus before it: %v", s.pid, bus))
+			}
+			last = p[0]
+		}
+	}
+	seen := map[string]bool{}
+	for _, b := range bus {
+		if seen[b] {
+			m.fail("telegram-on-bus-twice", fmt.Sprintf("telegram %s is on the bus twice: %v", b, bus))
+		}
+		seen[b] = true
+	}
+	last = -1
+	for _, g := range gw {
+		p := pos(got, g)
+		switch {
+		case len(p) == 0:
+			m.fail("acknowledged-not-delivered", fmt.Sprintf("the gateway got telegram %s acknowledged but the application never received it: got %v", g, got))
+		case len(p) > 1:
+			m.fail("delivered-twice", fmt.Sprintf("telegram %s was delivered %d times: %v", g, len(p), got))
+		default:
+			if p[0] < last {
+				m.fail("delivery-order", fmt.Sprintf("telegram %s delivered out of the gateway's order: %v", g, got))
+			}
+			last = p[0]
+		}
+	}
+	seen = map[string]bool{}
+	for _, g := range got {
+		if seen[g] {
+			m.fail("delivered-twice", fmt.Sprintf("telegram %s was delivered twice: %v", g, got))
+		}
+		seen[g] = true
+	}
+	return len(bus) + len(got) + len(sends) + len(gw)
+}
+
 func runMonitors(prop, dir string) {
 	of, err := os.Open(filepath.Join(dir, "ops.txt"))
 	if err != nil {
@@ -444,6 +533,13 @@ func runMonitors(prop, dir string) {
 		script, trace := so.Text(), st.Text()
 		n++
 		m.script = script
+		if strings.HasPrefix(script, "sw ") {
+			nobs += m.c05sw(script, trace)
+			if len(samples) < 6 && n%7 == 1 {
+				samples = append(samples, script+" => "+trace)
+			}
+			continue
+		}
 		hdr, tcp, evs, bad := parseLine(script, trace)
 		for _, e := range evs {
 			if !e.in {
